@@ -188,6 +188,27 @@ class Base:
 class G(Base):
     d = 7
 ''', sources={"a": "int", "b": "int"}, derived={"d": (["a"], None, "attr"), "p": (["a"], lambda s: s["a"] * 2, "cached")}, attr_default=7),
+    "failing_factory": dict(src='''
+FAIL = {"on": False}
+def fac():
+    hit("fac")
+    if FAIL["on"]:
+        raise RuntimeError("default factory fails")
+    return 0
+
+@spec_class
+class G:
+    a: int = 1
+    b: int = 10
+    d: int = Attr(default_factory=fac, invalidated_by=["a"])
+    @spec_property(cache=True, invalidated_by=["a"])
+    def p(self):
+        hit("p"); return self.a * 2
+    @spec_property(cache=True, invalidated_by=["d"])
+    def q(self):
+        hit("q"); return self.d + 100
+''', sources={"a": "int", "b": "int"}, armable=True,
+        derived={"d": (["a"], None, "attr"), "p": (["a"], lambda s: s["a"] * 2, "cached"), "q": (["d"], lambda s: s["d"] + 100, "cached")}),
     "post_init_fill": dict(src='''
 @spec_class
 class G:
@@ -324,6 +345,14 @@ def ops_for(graph):
             ops += [["with", s, 3, True], ["with", s, 4, False], ["transform", s, True], ["transform", s, False],
                     ["reset_attr", s, True], ["reset_attr", s, False], ["update", s, 6, True], ["update", s, 6, False],
                     ["transform_top", s, True], ["set_bad", s, "bad"], ["with_bad", s, "bad", False], ["transform_bad", s, True]]
+    for d, (deps, _, kind) in g["derived"].items():
+        if kind == "attr":
+            for dep in deps:
+                if dep in g["sources"] and g["sources"][dep] == "int":
+                    ops += [["update_dep_then_dependant", dep, 5, d, 9, True], ["update_dep_then_dependant", dep, 5, d, 9, False]]
+    if g.get("armable"):
+        # a mutation that fails while its dependants are being reset (the dependant's default_factory raises)
+        ops += [["set_armed", "a", 5], ["with_armed", "a", 6, True], ["with_armed", "a", 6, False]]
     ops += [["reset", True], ["reset", False], ["deepcopy"]]
     return ops
 
@@ -440,6 +469,18 @@ def apply(ns, obj, ref, op):
             except ValueError:
                 return obj, r2, ("raised", "ValueError"), "failed_mutation"
             return obj, r2, ("value", None), "should_have_raised"
+        elif name in ("set_armed", "with_armed"):
+            ns["FAIL"]["on"] = True
+            try:
+                if name == "set_armed":
+                    setattr(obj, s, op[2])
+                else:
+                    getattr(obj, f"with_{s}")(op[2], _inplace=op[3])
+            except RuntimeError:
+                return obj, r2, ("raised", "RuntimeError"), "failed_mutation"
+            finally:
+                ns["FAIL"]["on"] = False
+            return obj, r2, ("value", None), "should_have_raised"
         elif name == "del":
             try:
                 delattr(obj, s)
@@ -473,6 +514,13 @@ def apply(ns, obj, ref, op):
         elif name == "update":
             carrier = obj.update(**{s: op[2]}, _inplace=op[3])
             r2.set_src(s, op[2])
+        elif name == "update_dep_then_dependant":
+            # one call naming a dependency AND (after it) its Attr(invalidated_by) dependant: keywords are applied in order,
+            # so the dependant is first reset by the dependency's change and then receives the value given for it
+            carrier = obj.update(**{s: op[2], op[3]: op[4]}, _inplace=op[5])
+            r2.set_src(s, op[2])
+            r2.attr_val[op[3]] = op[4]
+            r2.changed(op[3])
         elif name == "transform_top":
             carrier = obj.transform(**{s: inc}, _inplace=op[2])
             r2.set_src(s, r2.src.get(s, 0) + 1)
